@@ -234,6 +234,8 @@ pub struct Ctx {
     mix_last: Option<Instant>,
     /// set while `run_mix` re-executes events: violations raised then are marked as sequence-dependent
     pub in_mix: bool,
+    /// the events `run_mix` used, kept for `run_mix_concurrent`
+    mix_used: Vec<Ev>,
 }
 
 /// events kept per context for the mixed re-execution
@@ -264,6 +266,7 @@ impl Ctx {
             mix_stride: 1,
             mix_last: None,
             in_mix: false,
+            mix_used: Vec::new(),
         }
     }
 
@@ -719,10 +722,68 @@ where
         }
     }
     ctx.in_mix = false;
+    ctx.mix_used = evs.clone();
     ctx.bump("mix:events-sampled", evs.len() as u64);
     ctx.bump("mix:re-executions", done);
     ctx.bump("mix:size-switches", switches);
     ctx.bump("mix:distinct-sizes", sizes.len() as u64);
+}
+
+/// Concurrent counterpart of `run_mix` (call it after `run_mix`): the same sampled events are executed by
+/// `threads` OS threads at the same time, each in its own shuffled order, released together by a barrier, so that
+/// calls of different sizes overlap in time.  State shared between threads inside the library (process-wide
+/// caches, statics behind locks taken twice, non-atomic read-modify-write) shows as an ordinary violation.
+pub fn run_mix_concurrent<F>(ctx: &mut Ctx, seed: u64, threads: usize, f: F)
+where
+    F: Fn(&mut Ctx, &Ev) + Sync,
+{
+    let evs: Vec<Ev> = std::mem::take(&mut ctx.mix_used);
+    if evs.is_empty() {
+        return;
+    }
+    let threads = std::cmp::max(2, std::cmp::min(threads, 8));
+    let budget = std::cmp::max(
+        std::time::Duration::from_millis(1000),
+        ctx.start.elapsed() / if ctx.thorough() { 8 } else { 12 },
+    );
+    let barrier = std::sync::Barrier::new(threads);
+    let results: std::sync::Mutex<Vec<(Ctx, u64)>> = std::sync::Mutex::new(Vec::new());
+    let proto = ctx.child();
+    std::thread::scope(|s| {
+        for t in 0..threads {
+            let evs = &evs;
+            let f = &f;
+            let barrier = &barrier;
+            let results = &results;
+            let proto = &proto;
+            s.spawn(move || {
+                let mut local = proto.child();
+                local.in_mix = true;
+                let mut order: Vec<usize> = (0..evs.len()).collect();
+                let mut rng = crate::rng::Rng::new(seed ^ 0x636f_6e63 ^ ((t as u64) << 32));
+                rng.shuffle(&mut order);
+                barrier.wait();
+                let t0 = Instant::now();
+                let mut done = 0u64;
+                for i in order {
+                    if t0.elapsed() > budget {
+                        break;
+                    }
+                    f(&mut local, &evs[i]);
+                    done += 1;
+                }
+                local.in_mix = false;
+                results.lock().unwrap().push((local, done));
+            });
+        }
+    });
+    let mut total = 0u64;
+    for (c, d) in results.into_inner().unwrap() {
+        total += d;
+        ctx.merge(c);
+    }
+    ctx.bump("mix:concurrent-re-executions", total);
+    ctx.bump("mix:concurrent-threads", threads as u64);
 }
 
 /// Verdict of a replayed event: prints what the monitors said; exit code 1 when a monitor fired.
